@@ -79,7 +79,7 @@ def listing (fs : FS) (sel : Path → Bool) : String :=
   if ws.isEmpty then "-" else joinWith " " ws
 
 def isWorkFile : Path → Bool
-  | .work u => !u.base.startsWith "job:"
+  | .work u => u.dir != "job:"
   | _ => false
 
 def lister : Lister := .byId
@@ -145,7 +145,8 @@ def step (st : St) (line : List String) : St × String :=
   | ["dump"] =>
       let entries := fed.filterMap pEntry
       -- keep the savepoint directories of the model, adopt the working storage of the implementation
-      let fs := entries ++ st.fs.filter (fun e => !e.1.isWork)
+      -- (job snapshot files are not listed by the implementation: the model keeps its own)
+      let fs := entries ++ st.fs.filter (fun e => !isWorkFile e.1)
       ({ st' with fs := fs, dumped := true, atDump := some fs }, listing fs isWorkFile)
   | ["intact"] =>
       if !live then (st', "wiped") else
@@ -186,9 +187,9 @@ def step (st : St) (line : List String) : St × String :=
       | _ => (st', "none")
   | ["load", id] =>
       -- a (re)start of the job from a savepoint URI: after a wipe, or as a roll-back while the job was running
-      match loadFromSavepoint lister st.fs (natOr id) with
-      | (fs, some s) =>
-        ({ st' with fs := fs, loaded := some s, store := { pending := none, ckptId := s.id }, acked := [], srcAcked := false,
+      match startStore lister st.fs (natOr id) with
+      | (fs, some (s, store)) =>
+        ({ st' with fs := fs, loaded := some s, store := store, acked := [], srcAcked := false,
                     parked := [], wiped := false, frozen := false, completed := [s.id], fresh := true, cleanLoad := st.wiped },
          s!"loaded {rContent (.job s)}")
       | (fs, none) => ({ st' with fs := fs, loaded := none, parked := [], wiped := true }, "load-error")
